@@ -141,7 +141,9 @@ def assert_bundle_attr(b: "Bundle", val: Any) -> None:
         raise TypeError(msg)
 
 
-_banned = ["signals", "bundles", "namespace"]
+_banned = ["signals", "bundles", "namespace", "props", "add", "get", "Roles"]
+# Names which can never denote a Bundle attribute: the protected ones, plus the Bundle's own `name` and `roles`
+_reserved = _banned + ["name", "roles"]
 
 
 @attrmagic.init
@@ -236,6 +238,8 @@ class Bundle:
             raise RuntimeError(msg)
         # Special case(s)
         if key == "name":
+            if val is not None and not isinstance(val, str):
+                raise TypeError(f"Invalid Bundle name {val}, must be a string")
             return super().__setattr__(key, val)
         if key == "roles":
             if isinstance(val, EnumMeta):
@@ -285,6 +289,11 @@ def _add(bundle: Bundle, val: BundleAttr) -> BundleAttr:
 
     if bundle._elaborated:  ## FIXME: is not None:
         raise RuntimeError(f"Cannot add {val} to {bundle} after elaboration.")
+
+    # Reserved names denote the Bundle's own Python attributes and methods, however the attribute arrives here
+    if val.name in _reserved:
+        msg = f"Invalid name {val.name} for attribute {val} of {bundle}: reserved by `Bundle`"
+        raise RuntimeError(msg)
 
     # Sort out which of our type-based containers to add `val` to.
     if isinstance(val, Signal):
